@@ -41,6 +41,20 @@ func (o *OnOff) UnmarshalFlag(v string) error {
 	return nil
 }
 
+// Sink is a struct-kinded type whose Unmarshaler has a value receiver: it cannot change itself, it hands every argument
+// on to the slice it points to (if any).
+type Sink struct{ Log *[]string }
+
+func (s Sink) UnmarshalFlag(v string) error {
+	if v == "bad" {
+		return fmt.Errorf("sink: bad")
+	}
+	if s.Log != nil {
+		*s.Log = append(*s.Log, v)
+	}
+	return nil
+}
+
 // CSV is a slice-kinded type with its own Unmarshaler: every argument adds its comma-separated items.
 type CSV []string
 
@@ -212,11 +226,13 @@ var (
 	TPicky    = &Type{"Picky", reflect.TypeOf(Picky(""))}
 	TOnOff    = &Type{"OnOff", reflect.TypeOf(OnOff(false))}
 	TCSV      = &Type{"CSV", reflect.TypeOf(CSV{})}
+	TSink     = &Type{"Sink", reflect.TypeOf(Sink{})}
 	TMapLS    = &Type{"map[Level]string", reflect.TypeOf(map[Level]string{})}
 	TMapSL    = &Type{"map[string]Level", reflect.TypeOf(map[string]Level{})}
 	TGrade    = &Type{"Grade", reflect.TypeOf(Grade(0))}
 	TGrades   = &Type{"[]Grade", reflect.TypeOf([]Grade{})}
 	TPInts    = &Type{"[]*int", reflect.TypeOf([]*int{})}
+	TPStrs    = &Type{"[]*string", reflect.TypeOf([]*string{})}
 	TPBools   = &Type{"[]*bool", reflect.TypeOf([]*bool{})}
 	TPPBool   = &Type{"**bool", reflect.TypeOf((**bool)(nil))}
 	TPWords   = &Type{"*Words", reflect.TypeOf((*Words)(nil))}
